@@ -97,7 +97,7 @@ Definition model_agrees (c : case) : bool :=
     | PFUnknown, _ => true
     | _, _ => false
     end
-  | CUnquote s obs => opt_eqb String.eqb (unquote_dq s) obs
+  | CUnquote s obs => opt_eqb String.eqb (unquote_go s) obs      (* strconv.Unquote itself *)
   end.
 
 Definition skipped (c : case) : bool :=
